@@ -25,10 +25,14 @@ CLAIMS = {
          "the converse (an error implies something is really missing, i.e. unselected commands are never demanded) and the content of the message are not mechanised; the active chain is a ghost sequence with trusted finiteness"),
  "C11": ("convert per kind: the strconv parser is called with the width of the field's type and the base of the tag, the parsed value is what is stored (ghost trace of reflect Set*), nothing is stored on error; getBase; choice rejection in Set",
          "strconv/time parsers, reflect and custom Unmarshalers are assumed; slices, maps and pointers only get error propagation and safety (recursion through the contract), termination of the recursion is not proved"),
+ "C12": ("value-level round trip of the INI writer/reader pair: whatever writeOption writes for a string value (or for an option whose values were quoted when read) decodes - by the reader's own rule: trim, then strconv.Unquote iff the text starts with a double quote - to exactly the value passed in, for scalar and for map entries (assertions at the three output points, using the library facts Unquote(Quote(s)) == s and the shape of Quote's result); readIni stores exactly that decoding of the text after '=' and the trimmed key; IniParser.parse hands a map entry on as key:decoded-value; convertToString renders each kind with the strconv formatter that convert's parser for that kind inverts, with the base read from the same tag; writeGroupIni never writes hidden / func / no-ini options and passes the element kind on so that strings get quoted",
+         "line level (section headers, '=' inside names, comment marks, the 'omitted because default' rule, _read-ini-name) and the composition into a whole-file round trip are not mechanised; Parse(Format(x)) == x for the strconv pairs, Quote/Unquote and TrimSpace facts are trusted library axioms; Marshaler/Unmarshaler implementations are outside"),
  "C13": ("optionByName returns an option of maximal rank (ini-name > field name > namespaced long name > short name) among all groups below the section's group; matchingGroups; the value handed to Set/setDefault by IniParser.parse",
          "first-of-equal-rank, groupByName/Find (section resolution) and the relational lemma ini-entry == flag are not mechanised"),
  "C14": ("readFullLine/readIni/IniParser.parse: no index or nil panic for any byte sequence, termination for finite input, every *IniError carries the number of lines read so far and the file name, sections are registered in file order, ErrUnknownGroup only without IgnoreUnknown",
          "bufio.Reader.ReadLine is assumed (finite input); that noise lines do not change other entries is read off the loop structure, not a separate lemma"),
+ "C15": ("every place where the library ranges over a Go map or over reflect's MapKeys is executed for an arbitrary ghost iteration order, and what leaves the function is shown order-free: convertToString and writeGroupIni render map entries by ascending rendered key (sortedness is a loop invariant of the rendering loop), completion candidates leave complete() sorted, visible commands are sorted, the required-flag list is sorted before it is joined into the message, IniParser.parse walks the sections in file order (ini.order), never the Sections map",
+         "determinism is argued per function from 'canonical order' obligations (a sorted sequence of a set is unique); it is not a relational (two-run) proof; the Go scheduler and map hashing are otherwise outside the model; help/man text is order-free because it only ranges over slices"),
  "C16": ("help and man page rows: writeManPageOptions and WriteHelp write exactly one row per option that can be shown (non-hidden, with a name) of every group that is not hidden (and, below the top level, not the built-in help group) along the iterated groups / active chain - counted with ghost counters against a recursive specification - and no row for anything else; hidden options write nothing (writeHelpOption); a masked default is rendered as its mask or not at all, never as its value (help row text and man row); man sections and the help command list only come from the sorted visible (non-hidden) subcommands",
          "the byte-level layout of a row (names, value name, choices) is not specified beyond the description/default/env text; fmt and bufio are assumed; termination of the mutual recursion of the man-page walk is not proved; ordinals of 'at call' assertions are tied to the current source"),
  "C17": ("wrapText: safety of every slice expression, termination, break positions 1 <= pos < width, and content preservation (the text without white space and hyphens is unchanged)",
